@@ -145,7 +145,8 @@ class Session:
             self.reader = asyncio.ensure_future(self._read_frames())
             return
         s = socket.socket(socket.AF_INET, socket.SOCK_DGRAM)
-        s.setsockopt(socket.SOL_SOCKET, socket.SO_REUSEADDR, 1)
+        if rebind_port:
+            s.setsockopt(socket.SOL_SOCKET, socket.SO_REUSEADDR, 1)  # (never with port 0: the kernel could then hand out a port twice)
         s.setsockopt(socket.SOL_SOCKET, socket.SO_RCVBUF, 16 << 20)
         s.bind(("127.0.0.1", rebind_port or 0))
         s.setblocking(False)
@@ -374,6 +375,65 @@ async def main(args):
         if got_empty != sent_empty:
             out.violation("empty-payload datagrams are not delivered exactly once", {"sent": sent_empty, "delivered": got_empty})
         origins[1].got = [x for x in origins[1].got if x[2] != b""]
+        # ---------------- small bursts: 24 x 64-byte datagrams back to back on one session at a time. The whole burst is a few
+        # kilobytes, far below every socket buffer on the way, so no hop can lose any of it for lack of buffer space
+        async def small_burst(lk, ck, cid, sid):
+            s = Session(lk, ck, cid, sid)
+            sessions.append(s)
+            try:
+                await s.open(P, tag)
+            except Exception:
+                return
+            seq, _ = s.send(args.seed, origins[0], 100)
+            await s.wait_reply(seq, 2.0)
+            for rnd in range(2):
+                out.case()
+                seqs = [s.send(args.seed, origins[0], 64)[0] for _ in range(24)]
+                missing = [q for q in seqs if (await s.wait_reply(q, 2.0)) is None]
+                out.nontrivial((lk, ck, "small-burst", rnd))
+                if missing:
+                    reached = sum(1 for q in missing if any(d == s.sent[q][1] for (_, _, d) in origins[0].got))
+                    out.violation("datagrams of a 24 x 64-byte burst lost without network loss: %s via %s" % (lk, ck), {"lost": len(missing), "of": 24, "lost_ones_that_reached_the_origin": reached})
+        for lk, ck in paths:
+            sess_id += 1
+            await small_burst(lk, ck, client_id + 70, sess_id)
+        # ---------------- many associations open at the same time (every one owns sockets with ports chosen by the kernel)
+        many = []
+        n_many = 900 if args.thorough else 300
+        for k in range(n_many):
+            sess_id += 1
+            many.append(Session("socks", ["direct", "s5", "direct", "h"][k % 4], client_id + 100 + k, sess_id))
+
+        async def open_many(s):
+            try:
+                await s.open(P, tag)
+                sessions.append(s)
+                return s
+            except Exception as e:
+                return None
+        opened = []
+        for i in range(0, len(many), 50):
+            opened += [s for s in await asyncio.gather(*[open_many(s) for s in many[i:i + 50]]) if s]
+        if len(opened) < n_many * 0.9:
+            out.inconclusive += 1
+        lost_many = []
+
+        async def use_many(s, k):
+            for i in range(2):
+                out.case()
+                seq, p = s.send(args.seed, origins[(k + i) % 2], 80)
+                if await s.wait_reply(seq, 2.5) is None:
+                    lost_many.append((s.ck, s.session, seq, any(d == p for (_, _, d) in origins[(k + i) % 2].got)))
+        for i in range(0, len(opened), 100):
+            await asyncio.gather(*[use_many(s, k) for k, s in enumerate(opened[i:i + 100])])
+        out.setx("associations_open_at_once", len(opened))
+        out.nontrivial(("socks", "many-associations", len(opened) >= 100))
+        if lost_many:
+            out.violation("datagram lost without network loss (many associations open at once): socks via %s" % lost_many[0][0],
+                          {"lost": len(lost_many), "of": 2 * len(opened), "examples": lost_many[:5]})
+        for s in opened:
+            s.close()
+        await asyncio.sleep(0.3)
         # ---------------- concurrent sessions with multi-fragment datagrams over a QUIC hop that loses packets:
         # loss is expected, but nothing may be delivered corrupted, mixed between sessions or to the wrong session
         relay_tr, relay = await asyncio.get_running_loop().create_datagram_endpoint(lambda: LossyRelay(("127.0.0.1", P["B.quic"]), rng), local_addr=("127.0.0.1", P["relay"]))
